@@ -32,6 +32,7 @@
 #include <booster/clone_ptr.h>
 #include <booster/copy_ptr.h>
 #include <booster/backtrace.h>
+#include <booster/refcounted.h>
 #include <cppcms/json.h>
 // the read position of an archive is private; the harness reports it (layout is not affected)
 #define private public
@@ -65,14 +66,16 @@ namespace cppcms {
 		static void save(jw const &o,archive &a) { archive_traits<json::value>::save(o.v,a); }
 		static void load(jw &o,archive &a)
 		{
+			// the verdict of the json parser on the chunk, obtained independently of what archive_traits<json::value> does with it
+			// (whole text must be one json value); this is the model's json_parse
 			archive b=a; std::string chunk; bool got=true;
 			try { chunk=b.read_chunk_as_string(); } catch(...) { got=false; }
-			try { archive_traits<json::value>::load(o.v,a); }
-			catch(archive_error const &e) {
-				if(got && strstr(e.what(),"Invalid json")) jlog.push_back(std::make_pair(chunk,std::string("!")));
-				throw;
+			if(got) {
+				json::value ref; std::istringstream rs(chunk);
+				bool ok=ref.load(rs,true);
+				jlog.push_back(std::make_pair(chunk,ok ? hex(json_text(ref)) : std::string("!")));
 			}
-			if(got) jlog.push_back(std::make_pair(chunk,hex(json_text(o.v))));
+			archive_traits<json::value>::load(o.v,a);
 		}
 	};
 }
@@ -161,6 +164,21 @@ template<class K,class V> struct IO<std::map<K,V> > {
 		for(;;){ std::pair<K,V> e; if(!IO<std::pair<K,V> >::build(p,e)) return false; v.insert(e); if(eat(p,']')) return true; if(!eat(p,',')) return false; } }
 	static bool eq(std::map<K,V> const &a,std::map<K,V> const &b){ return SeqIO<std::map<K,V> >::eq(a,b); }
 };
+template<class T> struct IO<std::multiset<T> > {
+	static std::string spec(){ return "B"+IO<T>::spec(); }
+	static void print(std::multiset<T> const &v,std::string &o){ print_sorted(v,o); }
+	static bool build(char const *&p,std::multiset<T> &v){ return SeqIO<std::multiset<T> >::build(p,v); }
+	static bool eq(std::multiset<T> const &a,std::multiset<T> const &b){ return SeqIO<std::multiset<T> >::eq(a,b); }
+};
+template<class K,class V> struct IO<std::multimap<K,V> > {
+	static std::string spec(){ return "N"+IO<K>::spec()+IO<V>::spec(); }
+	static void print(std::multimap<K,V> const &v,std::string &o){ print_sorted(v,o); }
+	static bool build(char const *&p,std::multimap<K,V> &v){
+		if(!eat(p,'[')) return false; v.clear();
+		if(eat(p,']')) return true;
+		for(;;){ std::pair<K,V> e; if(!IO<std::pair<K,V> >::build(p,e)) return false; v.insert(e); if(eat(p,']')) return true; if(!eat(p,',')) return false; } }
+	static bool eq(std::multimap<K,V> const &a,std::multimap<K,V> const &b){ return SeqIO<std::multimap<K,V> >::eq(a,b); }
+};
 template<class P> struct PtrIO {
 	typedef typename P::element_type T;
 	static std::string spec(){ return "O"+IO<T>::spec(); }
@@ -185,11 +203,38 @@ template<class P,class T> struct PtrIO2 {
 template<class T> struct IO<booster::hold_ptr<T> > : PtrIO2<booster::hold_ptr<T>,T> {};
 template<class T> struct IO<booster::clone_ptr<T> > : PtrIO2<booster::clone_ptr<T>,T> {};
 template<class T> struct IO<std::unique_ptr<T> > : PtrIO2<std::unique_ptr<T>,T> {};
+template<class T> struct IO<booster::intrusive_ptr<T> > {
+	typedef booster::intrusive_ptr<T> P;
+	static std::string spec(){ return "O"+IO<T>::spec(); }
+	static void print(P const &v,std::string &o){ if(!v.get()) o+="N"; else { o+="&"; IO<T>::print(*v,o); } }
+	static bool build(char const *&p,P &v){
+		if(eat(p,'N')) { v=0; return true; }
+		if(!eat(p,'&')) return false;
+		v=new T(); return IO<T>::build(p,*v); }
+	static bool eq(P const &a,P const &b){ if(!a.get() || !b.get()) return !a.get() && !b.get(); return IO<T>::eq(*a,*b); }
+};
 // a clonable user class holding one string (wire format = the string)
 struct cl_str : public cppcms::serializable {
 	std::string s;
 	void serialize(cppcms::archive &a){ a & s; }
 	cl_str *clone() const { return new cl_str(*this); }
+};
+// a reference counted user class for intrusive_ptr (wire format = int, string)
+struct rc_rec : public booster::refcounted {
+	int n; std::string s;
+	rc_rec():n(0){}
+};
+namespace cppcms {
+	template<> struct archive_traits<rc_rec> {
+		static void save(rc_rec const &o,archive &a){ a << o.n << o.s; }
+		static void load(rc_rec &o,archive &a){ a >> o.n >> o.s; }
+	};
+}
+template<> struct IO<rc_rec> {
+	static std::string spec(){ return "Pp4s"; }
+	static void print(rc_rec const &v,std::string &o){ o+="("; IO<int>::print(v.n,o); o+=","; IO<std::string>::print(v.s,o); o+=")"; }
+	static bool build(char const *&p,rc_rec &v){ return eat(p,'(') && IO<int>::build(p,v.n) && eat(p,',') && IO<std::string>::build(p,v.s) && eat(p,')'); }
+	static bool eq(rc_rec const &a,rc_rec const &b){ return a.n==b.n && a.s==b.s; }
 };
 template<> struct IO<cl_str> {
 	static std::string spec(){ return "s"; }
@@ -588,6 +633,12 @@ static void fill_table()
 	reg<booster::clone_ptr<cl_str> >();                                      // 32 Os
 	reg<std::vector<booster::copy_ptr<std::pair<short,str> > > >();          // 33 LOPp2s
 	reg<cl_str>();                                                           // 34 s (serializable: session/cache)
+	reg<std::multiset<int> >();                                              // 35 Bp4
+	reg<std::multimap<str,short> >();                                        // 36 Nsp2
+	reg<booster::intrusive_ptr<rc_rec> >();                                  // 37 OPp4s
+	reg<wchar_t>();                                                          // 38 p4
+	reg<std::vector<long double> >();                                        // 39 v16
+	reg<std::map<int,std::multiset<str> > >();                               // 40 Mp4Bs
 }
 
 int main()
